@@ -78,6 +78,11 @@ impl JSON {
 
             _line = boxed_line.unwrap();
             let buffer_filtered_control_chars = StringExt::filter_ascii_control_characters(_line.as_str());
+            let is_empty_object = properties.len() == 0 && buffer_filtered_control_chars == "}";
+            if is_empty_object {
+                return Ok(properties);
+            }
+
             if buffer_filtered_control_chars != "\"" {
                 let message = format!("provided json is not valid");
                 return Err(message);
